@@ -113,6 +113,11 @@ func c05Gen(class string, seed uint64, tier string) *vfScenario {
 		case "chtimes":
 			op.Off = int64(1000000000 + rng.IntN(500000000))
 			op.N = 1000000000 + rng.IntN(500000000)
+			if rng.IntN(6) == 0 {
+				// times after 2038 (the wire field is an unsigned 32-bit count of seconds: up to 2106)
+				op.Off = int64(1<<31 + rng.IntN(1<<31-1))
+				op.N = 1<<31 + rng.IntN(1<<31-1)
+			}
 		case "truncate":
 			op.Off = int64(rng.IntN(40))
 		case "glob":
